@@ -11,7 +11,10 @@ import (
 var Workers = runtime.NumCPU()
 
 // For calls f(i) for every i in [0,n), in chunks, on Workers goroutines.
-func For(n int, f func(i int)) {
+func For(n int, f func(i int)) { ForW(n, func(_, i int) { f(i) }) }
+
+// ForW is For with the worker number passed to f.
+func ForW(n int, f func(worker, i int)) {
 	if n <= 0 {
 		return
 	}
@@ -27,6 +30,7 @@ func For(n int, f func(i int)) {
 	var wg sync.WaitGroup
 	for k := 0; k < w; k++ {
 		wg.Add(1)
+		k := k
 		go func() {
 			defer wg.Done()
 			for {
@@ -39,7 +43,7 @@ func For(n int, f func(i int)) {
 					hi = n
 				}
 				for i := lo; i < hi; i++ {
-					f(i)
+					f(k, i)
 				}
 			}
 		}()
